@@ -259,7 +259,17 @@ func VH_C08_register() {
 		}
 		vx.Observe("reg", step, ast.String(), want, why, got)
 		if got || want || panicked {
-			return // the tree may be partially modified: the history ends here
+			// the history ends here; a registration that was rightly refused must have left
+			// the routes accepted before it reachable
+			if got && want && !panicked {
+				for _, r := range accepted {
+					for _, inst := range vInstances(r) {
+						_, _, found := tree.Match(inst, nil)
+						vx.Assert(found, "C08: an accepted route stays reachable by its own instances (also after a later registration was refused)")
+					}
+				}
+			}
+			return
 		}
 		st.record(ast)
 		accepted = append(accepted, ast)
